@@ -182,6 +182,29 @@ func genC15(r *Rng, e *Emitter, n int) {
 					line = append(line, r.anyBits())
 				}
 			}
+			spur := -1
+			if long && r.chance(1, 3) {
+				// a spur: one vertex — the last one, or one at a multiple of a power of two — far off to
+				// the side, so that two long segments lead out to it and back; the query point sits on
+				// or beside the way out, far from every other vertex
+				spur = nv - 1
+				if r.chance(1, 2) {
+					blk := []int{16, 32, 64, 128, 256}[r.Intn(5)]
+					if nv > blk {
+						spur = blk * (1 + r.Intn((nv-1)/blk))
+					}
+				}
+				sx, sy := float64(300+r.Intn(5000)), float64(300+r.Intn(5000))
+				if r.chance(1, 2) {
+					sx = -sx
+				}
+				if r.chance(1, 2) {
+					sy = -sy
+				}
+				line[spur*stride] += sx
+				line[spur*stride+1] += sy
+				e.tally("long-linestring-spur")
+			}
 			if long {
 				// the query point: near one of the turns, near a random vertex, or anywhere
 				k := r.Intn(nv)
@@ -190,6 +213,13 @@ func genC15(r *Rng, e *Emitter, n int) {
 					row := r.Intn(nv/leg + 1)
 					c[0], c[1] = float64(10*(leg-1)*(row%2)+r.Intn(7)-3), float64(4*row+r.Intn(5)-2)
 				}
+			}
+			if spur > 0 {
+				// at the far vertex, or part of the way out to it
+				f := []float64{1, 0.5, 0.25, 0.75}[r.Intn(4)]
+				px, py := line[(spur-1)*stride], line[(spur-1)*stride+1]
+				c[0] = math.Round(px + f*(line[spur*stride]-px) + float64(r.Intn(5)-2))
+				c[1] = math.Round(py + f*(line[spur*stride+1]-py) + float64(r.Intn(5)-2))
 			}
 			e.tally("op=ptline2")
 			l := layoutForStride(stride)
